@@ -12,6 +12,7 @@ from ..common import build, call, exc_text
 from ..refmodel import ParsedPlot, same_value, bits_equal
 from ..runner import Rec, h64
 
+PATHFORMS = False      # (this check spells its input paths itself)
 PROPERTY = "C18"
 LEVEL = "model_checking"
 RULE = ("case = generated plotfile (1..5 fields from an alphabet built to collide: species, unknown names that are substrings "
